@@ -457,20 +457,310 @@ Section Do.
   Qed.
 End Do.
 
+(** ** [for (init; c; n) body]: condition block, body block, increment block, exit block *)
+Section For.
+  Variable structs : list sdef.
+  Variable gl args : list string.
+  Notation lowers := (lower_stmt structs gl args).
+
+  Lemma lower_for_unfold c nx b st :
+    lowers (TFor None (Some c) (Some nx) b) st =
+    (let '(st2, condb) := create_block st in
+     ldo p <- lower_expr structs gl args c st2; let '(cv, st3) := p in
+     let '(st4, cbr) := emit_branch st3 (Some cv) LNone LNone in
+     let '(st5, bodyb) := create_block st4 in
+     ldo st6 <- lowers b (set_depth st5 (S (l_depth st5)));
+     let '(st8, incb) := create_block (set_depth st6 (l_depth st5)) in
+     ldo st9 <- lowers (TExpr nx) st8;
+     let '(st10, jb) := emit_branch st9 None (LRef condb) LNone in
+     let '(st11, endb) := create_block st10 in
+     LOk (patch (set_targets st11 cbr (Some (LRef bodyb)) (Some (LRef endb))) (l_depth st5) endb incb)).
+  Proof.
+    cbn [lower_stmt lower_opt lbind]. destruct (create_block st) as [st2 condb].
+    destruct (lower_expr structs gl args c st2) as [[cv st3]| |]; cbn [lbind fst snd]; try reflexivity.
+    destruct (emit_branch st3 (Some cv) LNone LNone) as [st4 cbr]. destruct (create_block st4) as [st5 bodyb].
+    destruct (lower_stmt structs gl args b (set_depth st5 (S (l_depth st5)))) as [st6| |]; cbn [lbind]; try reflexivity.
+    destruct (create_block (set_depth st6 (l_depth st5))) as [st8 incb].
+    destruct (lower_expr structs gl args nx st8) as [[q1 q2]| |]; cbn [lbind fst snd]; reflexivity.
+  Qed.
+  Lemma lower_for_split t x i c nx b st :
+    lowers (TFor (Some (t, x, i)) (Some c) (Some nx) b) st = (ldo st1 <- lowers (TDecl t x i) st; lowers (TFor None (Some c) (Some nx) b) st1).
+  Proof. cbn [lower_stmt lbind]. destruct (lower_decl structs gl args t x i st); reflexivity. Qed.
+
+  (** at most [k] evaluations of the condition; body a b-statement of depth [n], the increment an assignment *)
+  Fixpoint floop (n k : nat) (cs : list (nat * irty * cval)) (locals : list string) (c nx : texpr) (b : tstmt) (V : list (string * val)) (A : list val) (vs : vmstate)
+    : option (list (string * val) * list val * vmstate) :=
+    match k with
+    | O => None
+    | S k' =>
+        match teval structs gl args cs locals (mkfr V A) vs c with
+        | Ok w => match truthy (hp vs) w with
+                  | Ok true => match bexec structs gl args n cs locals b V A vs with
+                               | Some (V1, A1, vs1) => match bexec structs gl args 1 cs locals (TExpr nx) V1 A1 vs1 with
+                                                       | Some (V2, A2, vs2) => floop n k' cs locals c nx b V2 A2 vs2
+                                                       | None => None
+                                                       end
+                               | None => None
+                               end
+                  | Ok false => Some (V, A, vs)
+                  | _ => None
+                  end
+        | _ => None
+        end
+    end.
+  Definition fspec (n k : nat) (c nx : texpr) (b : tstmt) cs (locals : list string) V A vs : option (list string * list (string * val) * list val * vmstate) :=
+    match floop n k cs locals c nx b V A vs with Some (V', A', vs') => Some (locals, V', A', vs') | None => None end.
+
+  Lemma tres_forloop n k c nx b st st' :
+    tpure c = true -> bstmt 1 (TExpr nx) = true -> bstmt n b = true -> fok st -> nobc st -> lowers (TFor None (Some c) (Some nx) b) st = LOk st' ->
+    tres args st st' (fspec n k c nx b) /\ nobc st'.
+  Proof.
+    intros Hpc Hbn Hbb A N H. rewrite lower_for_unfold in H.
+    destruct (create_block st) as [st1 startb] eqn:Esb.
+    destruct (lower_expr structs gl args c st1) as [[cv st2]| |] eqn:Ec; cbn [lbind] in H; try discriminate.
+    destruct (emit_branch st2 (Some cv) LNone LNone) as [st3 br] eqn:Eb.
+    destruct (create_block st3) as [st4 bodyb] eqn:Ebb.
+    destruct (lowers b (set_depth st4 (S (l_depth st4)))) as [st5| |] eqn:Et; cbn [lbind] in H; try discriminate.
+    destruct (create_block (set_depth st5 (l_depth st4))) as [st6 incb] eqn:Eib.
+    destruct (lowers (TExpr nx) st6) as [st6n| |] eqn:En; cbn [lbind] in H; try discriminate.
+    destruct (emit_branch st6n None (LRef startb) LNone) as [st7 jb] eqn:Ejb.
+    destruct (create_block st7) as [st8 endb] eqn:Eeb. inversion H; subst st'; clear H.
+    set (st9 := set_targets st8 br (Some (LRef bodyb)) (Some (LRef endb))) in *.
+    destruct (fok_block _ _ _ Esb A) as (A1 & _ & Hcode1 & Hbo1 & Hsb & Hn1 & _ & Hc1 & Hl1).
+    destruct (cond_facts structs gl args c st1 cv st2 Hpc A1 Ec) as (A2 & Hl2 & Hn2 & Hcv & (nc2 & Hc2 & Hg2) & isc & nbc & Hcode2 & Hbo2 & Hr2 & Hb2 & Hsemc).
+    destruct (emit_branch_fok _ _ _ _ _ _ Eb A2) as (A3 & (nb3 & Hbo3 & Hb3 & _ & _) & Hcode3 & Hc3 & Hl3 & _ & Hbr).
+    destruct (fok_block _ _ _ Ebb A3) as (A4 & _ & Hcode4 & Hbo4 & Hbob & Hn4 & _ & Hc4 & Hl4).
+    pose proof (fok_set_depth st4 (S (l_depth st4)) A4) as A4'.
+    destruct (bres_all structs gl args n b _ st5 Hbb A4' Et) as (A5 & Hl5 & Hn5 & (nc5 & Hc5 & Hg5) & newb & nbb & Hcode5 & Hbo5 & Hr5 & Hb5 & Hsemb).
+    change (lcode (set_depth st4 (S (l_depth st4)))) with (lcode st4) in *. change (boffs (set_depth st4 (S (l_depth st4)))) with (boffs st4) in *.
+    change (l_next (set_depth st4 (S (l_depth st4)))) with (l_next st4) in *. change (l_consts (set_depth st4 (S (l_depth st4)))) with (l_consts st4) in *.
+    change (l_locals (set_depth st4 (S (l_depth st4)))) with (l_locals st4) in *.
+    pose proof (fok_set_depth st5 (l_depth st4) A5) as A5'.
+    destruct (fok_block _ _ _ Eib A5') as (A6 & _ & Hcode6 & Hbo6 & Hib & Hn6 & _ & Hc6 & Hl6).
+    change (lcode (set_depth st5 (l_depth st4))) with (lcode st5) in *. change (boffs (set_depth st5 (l_depth st4))) with (boffs st5) in *.
+    change (l_next (set_depth st5 (l_depth st4))) with (l_next st5) in *. change (l_consts (set_depth st5 (l_depth st4))) with (l_consts st5) in *.
+    change (l_locals (set_depth st5 (l_depth st4))) with (l_locals st5) in *.
+    destruct (bres_all structs gl args 1 (TExpr nx) st6 st6n Hbn A6 En) as (A6n & Hl6n & Hn6n & (nc6 & Hc6n & Hg6) & newn & nbn & Hcode6n & Hbo6n & Hr6 & Hb6 & Hsemn).
+    destruct (emit_branch_fok _ _ _ _ _ _ Ejb A6n) as (A7 & (nb7 & Hbo7 & Hb7 & _ & _) & Hcode7 & Hc7 & Hl7 & _ & Hjb).
+    destruct (fok_block _ _ _ Eeb A7) as (A8 & _ & Hcode8 & Hbo8 & Heb & Hn8 & _ & Hc8 & Hl8).
+    destruct (fok_targets st8 br (Some (LRef bodyb)) (Some (LRef endb)) A8) as (A9 & _ & Hbo9). fold st9 in A9, Hbo9.
+    (* no placeholders: the patch is the identity *)
+    assert (N4 : nobc (set_depth st4 (S (l_depth st4)))).
+    { unfold nobc. change (lcode (set_depth st4 (S (l_depth st4)))) with (lcode st4). rewrite Hcode4, Hcode3, Hcode2, Hcode1. apply nobc_app; [apply nobc_app; [exact N|apply nobc_LI]|].
+      intros r p t0 f0 [E|[]]. inversion E; subst. split; exact Logic.I. }
+    pose proof (nobc_b structs gl args n b _ st5 Hbb A4' N4 Et) as N5.
+    assert (N6 : nobc st6) by (unfold nobc; rewrite Hcode6; exact N5).
+    pose proof (nobc_b structs gl args 1 (TExpr nx) st6 st6n Hbn A6 N6 En) as N6n.
+    assert (N8 : nobc st8).
+    { unfold nobc. rewrite Hcode8, Hcode7. apply nobc_app; [exact N6n|]. intros r p t0 f0 [E|[]]. inversion E; subst. split; exact Logic.I. }
+    pose proof (nobc_set_targets st8 br (Some (LRef bodyb)) (Some (LRef endb)) N8 Logic.I Logic.I) as N9. fold st9 in N9.
+    rewrite (patch_id st9 _ _ _ N9). split; [|exact N9].
+    (* the code *)
+    set (BR0 := LBr br (Some cv) LNone LNone) in *. set (JB := LBr jb None (LRef startb) LNone) in *.
+    assert (Hlc8 : lcode st8 = (lcode st ++ map LI isc) ++ [BR0] ++ (newb ++ newn ++ [JB])) by (rewrite Hcode8, Hcode7, Hcode6n, Hcode6, Hcode5, Hcode4, Hcode3, Hcode2, Hcode1, <- !app_assoc; reflexivity).
+    assert (Hpre_ne : forall i, In i (lcode st ++ map LI isc) -> lref i <> br).
+    { intros i Hi. apply in_app_or in Hi as [Hi|Hi]; [pose proof (irefs_bound _ A i Hi); lia|]. apply in_map_iff in Hi as (j & <- & Hj). cbn. specialize (Hr2 j Hj). lia. }
+    assert (Hpost_ne : forall i, In i (newb ++ newn ++ [JB]) -> lref i <> br).
+    { intros i Hi. apply in_app_or in Hi as [Hi|Hi]; [specialize (Hr5 i Hi); lia|]. apply in_app_or in Hi as [Hi|[<-|[]]]; [specialize (Hr6 i Hi); lia|cbn; lia]. }
+    set (BR := LBr br (Some cv) (LRef bodyb) (LRef endb)) in *.
+    assert (Hlc9 : lcode st9 = lcode st ++ map LI isc ++ [BR] ++ newb ++ newn ++ [JB]).
+    { unfold st9. rewrite set_targets_lcode, Hlc8. unfold BR0. rewrite (upd_layout br (Some cv) LNone LNone (Some (LRef bodyb)) (Some (LRef endb)) _ _ Hpre_ne Hpost_ne). rewrite <- !app_assoc. reflexivity. }
+    set (new := map LI isc ++ [BR] ++ newb ++ newn ++ [JB]).
+    set (nb := [(startb, length (lcode st))] ++ nbc ++ nb3 ++ [(bodyb, length (lcode st3))] ++ nbb ++ [(incb, length (lcode st5))] ++ nbn ++ nb7 ++ [(endb, length (lcode st7))]).
+    assert (Hbo : boffs st9 = boffs st ++ nb) by (unfold nb; rewrite Hbo9, Hbo8, Hbo7, Hbo6n, Hbo6, Hbo5, Hbo4, Hbo3, Hbo2, Hbo1, <- !app_assoc; reflexivity).
+    assert (HL1 : length (lcode st1) = length (lcode st)) by (rewrite Hcode1; reflexivity).
+    assert (HL2 : length (lcode st2) = length (lcode st) + length isc) by (rewrite Hcode2, app_length, map_length, HL1; reflexivity).
+    assert (HL3 : length (lcode st3) = length (lcode st) + length isc + 1) by (rewrite Hcode3, app_length, HL2; cbn; lia).
+    assert (HL4 : length (lcode st4) = length (lcode st3)) by (rewrite Hcode4; reflexivity).
+    assert (HL5 : length (lcode st5) = length (lcode st) + length isc + 1 + length newb) by (rewrite Hcode5, app_length, Hcode4, HL3; reflexivity).
+    assert (HL6 : length (lcode st6) = length (lcode st5)) by (rewrite Hcode6; reflexivity).
+    assert (HL6n : length (lcode st6n) = length (lcode st) + length isc + 1 + length newb + length newn) by (rewrite Hcode6n, app_length, HL6, HL5; reflexivity).
+    assert (HL7 : length (lcode st7) = length (lcode st) + length isc + 1 + length newb + length newn + 1) by (rewrite Hcode7, app_length, HL6n; cbn; lia).
+    assert (HLnew : length new = length isc + 1 + length newb + length newn + 1) by (unfold new; rewrite !app_length, map_length; cbn; lia).
+    assert (HL9 : length (lcode st9) = length (lcode st) + length new) by (rewrite Hlc9; fold new; apply app_length).
+    assert (Hnx9 : l_next st9 = l_next st8) by reflexivity.
+    split; [exact A9|]. split; [lia|].
+    split; [exists (nc2 ++ nc5 ++ nc6); split; [unfold st9; cbn; rewrite Hc8, Hc7, Hc6n, Hc6, Hc5, Hc4, Hc3, Hc2, Hc1, <- !app_assoc; reflexivity|
+                                          intros c0 Hc0; apply in_app_or in Hc0 as [Hc0|Hc0]; [specialize (Hg2 c0 Hc0); lia|apply in_app_or in Hc0 as [Hc0|Hc0]; [specialize (Hg5 c0 Hc0); lia|specialize (Hg6 c0 Hc0); lia]]]|].
+    exists new, nb. split; [rewrite Hlc9; reflexivity|]. split; [exact Hbo|].
+    split.
+    { intros i Hi. unfold new in Hi. rewrite !in_app_iff in Hi. cbn [In] in Hi. destruct Hi as [Hi|[[Hi|[]]|[Hi|[Hi|[Hi|[]]]]]].
+      - apply in_map_iff in Hi as (j & <- & Hj). cbn. specialize (Hr2 j Hj). lia.
+      - subst i. cbn. lia.
+      - specialize (Hr5 i Hi). lia.
+      - specialize (Hr6 i Hi). lia.
+      - subst i. cbn. lia. }
+    split.
+    { intros e He. unfold nb in He. rewrite HL9.
+      apply in_app_or in He as [He|He]; [destruct He as [<-|[]]; cbn [fst snd]; lia|].
+      apply in_app_or in He as [He|He]; [destruct (Hb2 e He); lia|].
+      apply in_app_or in He as [He|He]; [destruct (Hb3 e He); lia|].
+      apply in_app_or in He as [He|He]; [destruct He as [<-|[]]; cbn [fst snd]; lia|].
+      apply in_app_or in He as [He|He]; [destruct (Hb5 e He); lia|].
+      apply in_app_or in He as [He|He]; [destruct He as [<-|[]]; cbn [fst snd]; lia|].
+      apply in_app_or in He as [He|He]; [destruct (Hb6 e He); lia|].
+      apply in_app_or in He as [He|He]; [destruct (Hb7 e He); lia|].
+      destruct He as [<-|[]]. cbn [fst snd]. lia. }
+    (* the execution: induction on the number of evaluations of the condition *)
+    intros F pre post fr vs cs locals' V' A' vs' Hflat Hlen Hoff [more Hcs] Hregs Hdisj Hex.
+    assert (Hloc : l_locals st9 = l_locals st) by (unfold st9; cbn; congruence).
+    unfold fspec in Hex. destruct (floop n k cs (l_locals st) c nx b (vars fr) (fargs fr) vs) as [[[V1 A1q] vs1]|] eqn:Ew; [|discriminate]. inversion Hex; subst locals' V1 A1q vs1; clear Hex.
+    split; [exact Hloc|].
+    assert (Hflat' : flat_code F = (pre ++ map (finish_instr args) (map LI isc)) ++ finish_instr args BR :: (map (finish_instr args) newb ++ map (finish_instr args) newn) ++ finish_instr args JB :: post).
+    { rewrite Hflat. unfold new. rewrite !map_app. cbn [map]. rewrite <- ?app_assoc. cbn [app]. rewrite <- ?app_assoc. cbn [app]. reflexivity. }
+    assert (HnBR : nth_error (flat_code F) (length pre + length isc) = Some (finish_instr args BR)).
+    { rewrite Hflat'. replace (length pre + length isc) with (length (pre ++ map (finish_instr args) (map LI isc))) by (rewrite app_length, !map_length; reflexivity). apply nth_error_mid. }
+    assert (HnJB : nth_error (flat_code F) (length pre + length isc + 1 + length newb + length newn) = Some (finish_instr args JB)).
+    { rewrite Hflat'. replace (length pre + length isc + 1 + length newb + length newn) with (length (pre ++ map (finish_instr args) (map LI isc)) + 1 + length (map (finish_instr args) newb ++ map (finish_instr args) newn)) by (rewrite !app_length, !map_length; lia).
+      apply nth_error_mid2. }
+    assert (Hoffsb : block_offset_last (fn_blocks F) startb = Some (length pre)).
+    { assert (Hin : In (startb, length (lcode st)) nb) by (unfold nb; left; reflexivity). pose proof (Hoff _ Hin) as X. cbn [fst snd] in X. rewrite X, Hlen. reflexivity. }
+    assert (Hoffbb : block_offset_last (fn_blocks F) bodyb = Some (length pre + length isc + 1)).
+    { assert (Hin : In (bodyb, length (lcode st3)) nb) by (unfold nb; rewrite !in_app_iff; cbn [In]; right; right; right; left; left; reflexivity).
+      pose proof (Hoff _ Hin) as X. cbn [fst snd] in X. rewrite X, HL3, Hlen. reflexivity. }
+    assert (Hoffeb : block_offset_last (fn_blocks F) endb = Some (length pre + length new)).
+    { assert (Hin : In (endb, length (lcode st7)) nb) by (unfold nb; rewrite !in_app_iff; cbn [In]; right; right; right; right; right; right; right; right; left; reflexivity).
+      pose proof (Hoff _ Hin) as X. cbn [fst snd] in X. rewrite X, HL7, HLnew, Hlen. f_equal. lia. }
+    assert (Hcs2 : exists more2, cs = l_consts st2 ++ more2).
+    { exists (nc5 ++ nc6 ++ more). rewrite Hcs. unfold st9. cbn. rewrite Hc8, Hc7, Hc6n, Hc6, Hc5, Hc4, Hc3, <- !app_assoc. reflexivity. }
+    assert (Hcs5 : exists more5, cs = l_consts st5 ++ more5) by (exists (nc6 ++ more); rewrite Hcs; unfold st9; cbn; rewrite Hc8, Hc7, Hc6n, Hc6, <- app_assoc; reflexivity).
+    assert (Hcs6 : exists more6, cs = l_consts st6n ++ more6) by (exists more; rewrite Hcs; unfold st9; cbn; rewrite Hc8, Hc7; reflexivity).
+    clear Hcs.
+    revert fr vs Hregs Ew. induction k as [|k IHk]; intros fr vs Hregs Ew; [discriminate|]. cbn [floop] in Ew.
+    destruct (teval structs gl args cs (l_locals st) (mkfr (vars fr) (fargs fr)) vs c) as [w| |] eqn:Etw; try discriminate.
+    destruct (Hsemc F (length pre) fr vs cs w Hcs2 Hregs) as (frc & Hrunc & Hgc & Hvc & Hac & Hfc).
+    { intros c0 i Hc0 Hi. apply (Hdisj c0 (LI i) Hc0). unfold new. apply in_or_app. left. apply in_map. exact Hi. }
+    { rewrite Hl1. rewrite <- Etw. apply teval_frame; reflexivity. }
+    assert (Hj1 : jruns F (length pre) fr vs (length pre + length isc) frc vs).
+    { replace (length isc) with (length (map (finish_instr args) (map LI isc))) by (rewrite !map_length; reflexivity).
+      apply (sruns_jruns F _ pre (finish_instr args BR :: (map (finish_instr args) newb ++ map (finish_instr args) newn) ++ finish_instr args JB :: post)); [rewrite Hflat', <- app_assoc; reflexivity|apply runs_sruns; exact Hrunc]. }
+    assert (Hregsc : forall c0, In c0 cs -> rlookup (cref c0) (regs frc) = Some (const_val (snd c0))).
+    { intros c0 Hc0. rewrite Hfc; [apply Hregs; exact Hc0|]. intros i Hi E. apply (Hdisj c0 (LI i) Hc0); [unfold new; apply in_or_app; left; apply in_map; exact Hi|cbn; congruence]. }
+    destruct (truthy (hp vs) w) as [[|]| |] eqn:Etr; try discriminate.
+    - (* one more iteration: body, increment, jump back *)
+      destruct (bexec structs gl args n cs (l_locals st) b (vars fr) (fargs fr) vs) as [[[Vb Ab] vsb]|] eqn:Exb; [|discriminate].
+      destruct (bexec structs gl args 1 cs (l_locals st) (TExpr nx) Vb Ab vsb) as [[[Vn An] vsn]|] eqn:Exn; [|discriminate].
+      assert (HstepBR : step F (length pre + length isc) frc vs (finish_instr args BR) = StNext (length pre + length isc + 1) frc vs).
+      { unfold BR. rewrite finish_br. unfold step. cbn [i_body tgt]. rewrite Hgc. cbn [lift]. rewrite Etr. cbn [lift]. rewrite Hoffbb. reflexivity. }
+      destruct (Hsemb F (pre ++ map (finish_instr args) (map LI isc) ++ [finish_instr args BR]) (map (finish_instr args) newn ++ finish_instr args JB :: post) frc vs cs Vb Ab vsb) as (frb & Hjb' & Hvb & Hab & Hfb).
+      { rewrite Hflat'. rewrite <- !app_assoc. reflexivity. }
+      { rewrite !app_length, !map_length. cbn [length]. change (length (lcode (set_depth st4 (S (l_depth st4))))) with (length (lcode st4)). rewrite HL4, HL3. lia. }
+      { intros e He. apply Hoff. unfold nb. rewrite !in_app_iff. cbn [In]. right. right. right. right. left. exact He. }
+      { exact Hcs5. }
+      { exact Hregsc. }
+      { intros c0 i Hc0 Hi. apply Hdisj; [exact Hc0|]. unfold new. rewrite !in_app_iff. cbn [In]. tauto. }
+      { change (l_locals (set_depth st4 (S (l_depth st4)))) with (l_locals st4). rewrite Hl4, Hl3, Hl2, Hl1, Hvc, Hac. exact Exb. }
+      assert (Hregsb : forall c0, In c0 cs -> rlookup (cref c0) (regs frb) = Some (const_val (snd c0))).
+      { intros c0 Hc0. rewrite Hfb; [apply Hregsc; exact Hc0|]. intros i Hi E. apply (Hdisj c0 i Hc0); [unfold new; rewrite !in_app_iff; cbn [In]; tauto|congruence]. }
+      destruct (Hsemn F (pre ++ map (finish_instr args) (map LI isc) ++ [finish_instr args BR] ++ map (finish_instr args) newb) (finish_instr args JB :: post) frb vsb cs Vn An vsn) as (frn & Hjn & Hvn & Han & Hfn).
+      { rewrite Hflat'. rewrite <- !app_assoc. reflexivity. }
+      { rewrite !app_length, !map_length. cbn [length]. rewrite HL6, HL5, Hlen. lia. }
+      { intros e He. apply Hoff. unfold nb. rewrite !in_app_iff. cbn [In]. right. right. right. right. right. right. left. exact He. }
+      { exact Hcs6. }
+      { exact Hregsb. }
+      { intros c0 i Hc0 Hi. apply Hdisj; [exact Hc0|]. unfold new. rewrite !in_app_iff. cbn [In]. tauto. }
+      { rewrite Hl6, Hl5, Hl4, Hl3, Hl2, Hl1, Hvb, Hab. exact Exn. }
+      assert (HstepJB : step F (length pre + length isc + 1 + length newb + length newn) frn vsn (finish_instr args JB) = StNext (length pre) frn vsn).
+      { unfold JB. rewrite finish_br. unfold step. cbn [i_body tgt]. rewrite Hoffsb. reflexivity. }
+      assert (Hregsn : forall c0, In c0 cs -> rlookup (cref c0) (regs frn) = Some (const_val (snd c0))).
+      { intros c0 Hc0. rewrite Hfn; [apply Hregsb; exact Hc0|]. intros i Hi E. apply (Hdisj c0 i Hc0); [unfold new; rewrite !in_app_iff; cbn [In]; tauto|congruence]. }
+      destruct (IHk frn vsn Hregsn) as (fr' & Hj' & Hv' & Ha' & Hf').
+      { rewrite Hvn, Han. exact Ew. }
+      exists fr'. split; [|split; [exact Hv'|split; [exact Ha'|]]].
+      + eapply jruns_trans; [exact Hj1|]. eapply jruns_trans; [apply (jruns_branch F _ frc vs _ _ HnBR HstepBR)|].
+        rewrite !app_length, !map_length in Hjb'. cbn [length] in Hjb'.
+        replace (length pre + (length isc + 1)) with (length pre + length isc + 1) in Hjb' by lia.
+        eapply jruns_trans; [exact Hjb'|].
+        rewrite !app_length, !map_length in Hjn. cbn [length] in Hjn.
+        replace (length pre + (length isc + (1 + length newb))) with (length pre + length isc + 1 + length newb) in Hjn by lia.
+        eapply jruns_trans; [exact Hjn|]. eapply jruns_trans; [apply (jruns_branch F _ frn vsn _ _ HnJB HstepJB)|exact Hj'].
+      + intros q Hq. rewrite Hf' by exact Hq. rewrite Hfn by (intros i Hi; apply Hq; unfold new; rewrite !in_app_iff; cbn [In]; tauto).
+        rewrite Hfb by (intros i Hi; apply Hq; unfold new; rewrite !in_app_iff; cbn [In]; tauto).
+        apply Hfc. intros i Hi. apply (Hq (LI i)). unfold new. apply in_or_app. left. apply in_map. exact Hi.
+    - (* the condition fails: leave the loop *)
+      inversion Ew; subst V' A' vs'; clear Ew.
+      assert (HstepBR : step F (length pre + length isc) frc vs (finish_instr args BR) = StNext (length pre + length new) frc vs).
+      { unfold BR. rewrite finish_br. unfold step. cbn [i_body tgt]. rewrite Hgc. cbn [lift]. rewrite Etr. cbn [lift]. rewrite Hoffeb. reflexivity. }
+      exists frc. split; [|split; [exact Hvc|split; [exact Hac|]]].
+      + eapply jruns_trans; [exact Hj1|]. apply (jruns_branch F _ frc vs _ _ HnBR HstepBR).
+      + intros q Hq. apply Hfc. intros i Hi. apply (Hq (LI i)). unfold new. apply in_or_app. left. apply in_map. exact Hi.
+  Qed.
+End For.
+
 (** ** top-level statement lists with loops, and whole functions *)
 Section WTop.
   Variable structs : list sdef.
   Variable gl args : list string.
   Notation lowers := (lower_stmt structs gl args).
 
+  (** sequential composition of two lowerings *)
+  Lemma tres_seq st st1 st2 spec1 spec2 :
+    tres args st st1 spec1 -> tres args st1 st2 spec2 ->
+    tres args st st2 (fun cs locals V A vs => match spec1 cs locals V A vs with Some (locals1, V1, A1, vs1) => spec2 cs locals1 V1 A1 vs1 | None => None end).
+  Proof.
+    intros (A1 & Hn1 & (nc1 & Hc1 & Hg1) & new1 & nb1 & Hcode1 & Hbo1 & Hr1 & Hb1 & Hsem1) (A2 & Hn2 & (nc2 & Hc2 & Hg2) & new2 & nb2 & Hcode2 & Hbo2 & Hr2 & Hb2 & Hsem2).
+    assert (Hlen1 : length (lcode st) <= length (lcode st1)) by (rewrite Hcode1, app_length; lia).
+    assert (Hlen2 : length (lcode st1) <= length (lcode st2)) by (rewrite Hcode2, app_length; lia).
+    split; [exact A2|]. split; [lia|].
+    split; [exists (nc1 ++ nc2); split; [rewrite Hc2, Hc1, app_assoc; reflexivity|intros c Hc; apply in_app_or in Hc as [Hc|Hc]; [apply Hg1; exact Hc|specialize (Hg2 c Hc); lia]]|].
+    exists (new1 ++ new2), (nb1 ++ nb2). split; [rewrite Hcode2, Hcode1, app_assoc; reflexivity|]. split; [rewrite Hbo2, Hbo1, app_assoc; reflexivity|].
+    split; [intros i Hi; apply in_app_or in Hi as [Hi|Hi]; [specialize (Hr1 i Hi); lia|specialize (Hr2 i Hi); lia]|].
+    split; [intros e He; apply in_app_or in He as [He|He]; [destruct (Hb1 e He); lia|destruct (Hb2 e He); lia]|].
+    intros F pre post fr vs cs locals' V' A' vs' Hflat Hlen Hoff [more Hcs] Hregs Hdisj Hex.
+    destruct (spec1 cs (l_locals st) (vars fr) (fargs fr) vs) as [[[[locals1 V1] A1'] vs1]|] eqn:Ex1; [|discriminate].
+    destruct (Hsem1 F pre (map (finish_instr args) new2 ++ post) fr vs cs locals1 V1 A1' vs1) as (Hloc1 & fr1 & Hj1 & Hv1 & Ha1 & Hf1).
+    { rewrite Hflat, map_app, <- app_assoc. reflexivity. }
+    { exact Hlen. }
+    { intros e He. apply Hoff. apply in_or_app. left. exact He. }
+    { exists (nc2 ++ more). rewrite Hcs, Hc2, <- app_assoc. reflexivity. }
+    { exact Hregs. }
+    { intros c i Hc Hi. apply Hdisj; [exact Hc|apply in_or_app; left; exact Hi]. }
+    { exact Ex1. }
+    destruct (Hsem2 F (pre ++ map (finish_instr args) new1) post fr1 vs1 cs locals' V' A' vs') as (Hloc2 & fr2 & Hj2 & Hv2 & Ha2 & Hf2).
+    { rewrite Hflat, map_app, <- !app_assoc. reflexivity. }
+    { rewrite app_length, map_length, Hcode1, app_length. lia. }
+    { intros e He. apply Hoff. apply in_or_app. right. exact He. }
+    { exists more. exact Hcs. }
+    { intros c Hc. rewrite Hf1; [apply Hregs; exact Hc|]. intros i Hi E. apply (Hdisj c i Hc); [apply in_or_app; left; exact Hi|congruence]. }
+    { intros c i Hc Hi. apply Hdisj; [exact Hc|apply in_or_app; right; exact Hi]. }
+    { rewrite Hloc1, Hv1, Ha1. exact Hex. }
+    split; [exact Hloc2|]. exists fr2. split; [|split; [exact Hv2|split; [exact Ha2|]]].
+    + eapply jruns_trans; [exact Hj1|]. rewrite app_length, map_length in Hj2. rewrite app_length. replace (length pre + (length new1 + length new2)) with (length pre + length new1 + length new2) by lia. exact Hj2.
+    + intros q Hq. rewrite Hf2 by (intros i Hi; apply Hq; apply in_or_app; right; exact Hi). apply Hf1. intros i Hi. apply Hq. apply in_or_app. left. exact Hi.
+  Qed.
+
+  (** a [for] loop with a declaration in its header = the declaration, then the loop *)
+  Definition forspec (n k : nat) (t : ty) (x : string) (i : option texpr) (c nx : texpr) (b : tstmt) cs (locals : list string) V A vs :=
+    match topexec structs gl args n cs locals (TDecl t x i) V A vs with
+    | Some (locals1, V1, A1, vs1) => fspec structs gl args n k c nx b cs locals1 V1 A1 vs1
+    | None => None
+    end.
+  Lemma tres_for n k t x i c nx b st st' :
+    simple (TDecl t x i) = true -> tpure c = true -> bstmt 1 (TExpr nx) = true -> bstmt n b = true -> fok st -> nobc st ->
+    lowers (TFor (Some (t, x, i)) (Some c) (Some nx) b) st = LOk st' ->
+    tres args st st' (forspec n k t x i c nx b) /\ nobc st'.
+  Proof.
+    intros Hd Hpc Hbn Hbb A N H. rewrite lower_for_split in H.
+    destruct (lowers (TDecl t x i) st) as [st1| |] eqn:Ed; cbn [lbind] in H; try discriminate.
+    pose proof (tres_simple structs gl args n (TDecl t x i) st st1 Hd A Ed) as T1.
+    assert (N1 : nobc st1).
+    { destruct (lower_simple_correct structs gl args (TDecl t x i) st st1 Hd (fo_linv _ A) Ed) as (_ & _ & _ & is & Hcode & _). unfold nobc. rewrite Hcode. apply nobc_app; [exact N|apply nobc_LI]. }
+    assert (A1 : fok st1) by (destruct T1 as (X & _); exact X).
+    destruct (tres_forloop structs gl args n k c nx b st1 st' Hpc Hbn Hbb A1 N1 H) as [T2 N2].
+    split; [|exact N2]. apply (tres_seq st st1 st' _ _ T1 T2).
+  Qed.
+
   Definition is_while (n : nat) (s : tstmt) : bool := match s with TWhile c (Some b) => tpure c && bstmt n b | _ => false end.
   Definition is_do (n : nat) (s : tstmt) : bool := match s with TDo b c => tpure c && forallb (bstmt n) b | _ => false end.
-  Definition wtop_ok (n : nat) (s : tstmt) : bool := top_ok n s || is_while n s || is_do n s.
+  Definition is_for (n : nat) (s : tstmt) : bool :=
+    match s with TFor (Some (t, x, i)) (Some c) (Some nx) b => simple (TDecl t x i) && tpure c && bstmt 1 (TExpr nx) && bstmt n b | _ => false end.
+  Definition wtop_ok (n : nat) (s : tstmt) : bool := top_ok n s || is_while n s || is_do n s || is_for n s.
   Definition wtopexec (n k : nat) (cs : list (nat * irty * cval)) (locals : list string) (s : tstmt) (V : list (string * val)) (A : list val) (vs : vmstate)
     : option (list string * list (string * val) * list val * vmstate) :=
     match s with
     | TWhile c (Some b) => wspec structs gl args n k c b cs locals V A vs
     | TDo b c => dspec structs gl args n k b c cs locals V A vs
+    | TFor (Some (t, x, i)) (Some c) (Some nx) b => forspec n k t x i c nx b cs locals V A vs
     | _ => topexec structs gl args n cs locals s V A vs
     end.
   Fixpoint wtopexec_list (n k : nat) (cs : list (nat * irty * cval)) (locals : list string) (l : list tstmt) (V : list (string * val)) (A : list val) (vs : vmstate)
@@ -485,7 +775,7 @@ Section WTop.
   Proof.
     intros Hs A N H. unfold wtop_ok in Hs. destruct (top_ok n s) eqn:Et.
     - assert (Hnw : forall cs locals V A0 vs, wtopexec n k cs locals s V A0 vs = topexec structs gl args n cs locals s V A0 vs).
-      { intros. unfold wtopexec. destruct s as [| | | | | |c [b|]|b0 c0| |]; try reflexivity; unfold top_ok in Et; cbn in Et; destruct n; discriminate. }
+      { intros. unfold wtopexec. destruct s as [| | | | |[[[t0 x0] i0]|] [c1|] [n1|] b1|c [b|]|b0 c0| |]; try reflexivity; unfold top_ok in Et; cbn in Et; destruct n; discriminate. }
       split.
       + pose proof (tres_top structs gl args n s st st' Et A H) as T. destruct T as (T1 & T2 & T3 & new & nb & T4 & T5 & T6 & T7 & T8).
         split; [exact T1|]. split; [exact T2|]. split; [exact T3|]. exists new, nb. split; [exact T4|]. split; [exact T5|]. split; [exact T6|]. split; [exact T7|].
@@ -493,10 +783,12 @@ Section WTop.
       + unfold top_ok in Et. destruct (simple s) eqn:Esim.
         * destruct (lower_simple_correct structs gl args s st st' Esim (fo_linv _ A) H) as (_ & _ & _ & is & Hcode & _). unfold nobc. rewrite Hcode. apply nobc_app; [exact N|apply nobc_LI].
         * cbn in Et. apply (nobc_b structs gl args n s st st' Et A N H).
-    - cbn [orb] in Hs. destruct s as [| | | | | |c [b|]|b0 c0| |]; try discriminate.
-      + cbn [is_while is_do orb] in Hs. rewrite orb_false_r in Hs. apply andb_prop in Hs as [Hpc Hbb].
+    - cbn [orb] in Hs. destruct s as [| | | | |[[[t0 x0] i0]|] [c1|] [n1|] b1|c [b|]|b0 c0| |]; try discriminate.
+      + cbn [is_while is_do is_for orb] in Hs. apply andb_prop in Hs as [Hs Hbb]. apply andb_prop in Hs as [Hs Hbn]. apply andb_prop in Hs as [Hd Hpc].
+        apply (tres_for n k t0 x0 i0 c1 n1 b1 st st' Hd Hpc Hbn Hbb A N H).
+      + cbn [is_while is_do is_for orb] in Hs. rewrite !orb_false_r in Hs. apply andb_prop in Hs as [Hpc Hbb].
         apply (tres_while structs gl args n k c b st st' Hpc Hbb A N H).
-      + cbn [is_while is_do orb] in Hs. apply andb_prop in Hs as [Hpc Hbb].
+      + cbn [is_while is_do is_for orb] in Hs. rewrite orb_false_r in Hs. apply andb_prop in Hs as [Hpc Hbb].
         apply (tres_do structs gl args n k b0 c0 st st' Hpc Hbb A N H).
   Qed.
 
